@@ -27,7 +27,7 @@ pub const STRING_POSITIONS: [(&str, &str); 9] = [
 ];
 
 /// raw attribute token sequences (not inside a string literal)
-pub const TOKEN_ATTRS: [&str; 40] = [
+pub const TOKEN_ATTRS: [&str; 44] = [
     "#[validate]",
     "#[validate()]",
     "#[validate(length)]",
@@ -68,6 +68,11 @@ pub const TOKEN_ATTRS: [&str; 40] = [
     "#[serde(flatten)]",
     "#[cfg_attr(feature = \"x\", serde(rename = \"é\"), validate(length(min = 1, message = \"é\")))]",
     "#[serde(default = \"default_é\")]",
+    // a value the attribute walker cannot read, followed by validators with multi-byte messages
+    "#[validate(email(message = MSG_EMAIL), length(max = 64, message = \"长度不能超过64个字符\"))]",
+    "#[validate(custom(function = check, message = MSG), range(min = 1, max = 9, message = \"от 1 до 9 😀\"))]",
+    "#[validate(length(min = limits::MIN, message = \"é\"), url(message = \"漢字のURL\"))]",
+    "#[validate(regex(path = *RE, message = \"naïve\"), length(equal = 3, message = \"ровно три\"))]",
 ];
 
 pub const ODD_IDENTS: [&str; 14] = ["__", "_1", "_", "é", "über_cmd", "r#fn", "r#type", "a_", "_a_", "x__y", "Ünï", "漢字", "__proto__", "a1_2b"];
@@ -123,6 +128,9 @@ pub enum Case {
     Ident { ident: String, role: String },
     TypeVariant { ty: String, site: String, depth: usize },
     ItemShapes,
+    /// an emit with this event name (every string the name alphabet produces, incl. adjacent,
+    /// leading and trailing separators)
+    EventName { name: String },
     /// `<receiver>.<method>(<n arguments>)` with the name argument in one of three forms
     EmitCall { method: String, nargs: usize, name_form: usize, receiver: usize },
 }
@@ -195,6 +203,9 @@ impl Case {
                     "channel" => s.push_str(&format!("#[tauri::command]\npub fn cmd<'a>(ch: Channel<{}>) -> bool {{ true }}\n", t)),
                     _ => s.push_str(&format!("#[tauri::command]\npub fn anchor() -> bool {{ true }}\npub fn fire<'a>(app: &AppHandle, p: {}) {{ app.emit(\"ev\", p).unwrap(); }}\n", t)),
                 }
+            }
+            Case::EventName { name } => {
+                s.push_str(&format!("#[tauri::command]\npub fn anchor() -> bool {{ true }}\npub fn fire(app: &AppHandle) {{ app.emit({:?}, 1).unwrap(); }}\n", name));
             }
             Case::EmitCall { method, nargs, name_form, receiver } => {
                 let name = ["\"ev-name\"", "EVENT_NAME", "&format!(\"ev-{}\", 1)"][*name_form % 3];
@@ -283,6 +294,10 @@ pub fn emitter(app: &AppHandle) {
             }
             Case::ItemShapes => {
                 m.insert("family".into(), "item-shapes".into());
+            }
+            Case::EventName { name } => {
+                m.insert("family".into(), "event-name".into());
+                m.insert("name".into(), name.clone());
             }
             Case::EmitCall { method, nargs, name_form, receiver } => {
                 m.insert("family".into(), "emit-call".into());
@@ -527,6 +542,14 @@ pub fn run(tier: Tier) -> CheckResult {
             }
         }
     }
+    // every event name of the name alphabet (<= 3 characters over letters, digits and the four
+    // separators, plus the longer and non-ASCII ones)
+    for n in crate::props::c01::event_names(3) {
+        cases.push(Case::EventName { name: n });
+    }
+    for n in ["app://download/finished", "user--login", "ns::evt", "-lead", "trail-", "a//b", "::", "größe", "---"] {
+        cases.push(Case::EventName { name: n.to_string() });
+    }
     // every arity of emit / emit_to on every receiver form
     for method in ["emit", "emit_to", "emit_filter"] {
         for nargs in 0..=4usize {
@@ -723,7 +746,7 @@ pub fn run(tier: Tier) -> CheckResult {
         {"TypeVariant": {"ty": "for<'a> fn(&'a str) -> &'a str", "site": "event", "depth": 5}},
         {"corpus": "/repo/src/analysis/mod.rs"}
     ]));
-    res.coverage.set("rule", format!("(i) every string of <= {} letters over a 21-letter alphabet (ASCII, space, 2/3/4-byte characters, escaped quote, escaped backslash, parentheses, comma, '=', and the words the scanners look for) injected at 9 attribute-string positions; 40 raw attribute token forms (empty, missing values, non-literal values, duplicates, raw strings, cfg_attr) on fields, structs, variants, parameters and fns; (ii) 14 odd identifiers in 8 roles; (iii) 40 exotic syn::Type forms (incl. path segments with identifier characters that are neither letters nor digits) at the five sites wrapped to depth 0..5 in process, four non-ASCII project type names at every constructor position (map key / value, each tuple element, set element, Result arms, nested once more) of the five sites, every arity 0..4 of emit / emit_to / emit_filter x 3 forms of the name argument x 5 receiver forms, nesting depth up to {} in a subprocess; an item-shape zoo (tuple/unit/generic structs, data-carrying and tagged enums, unions, trait and impl methods, pattern parameters, qualifiers, emit calls of every arity and payload expression); (iv) every .rs file under /repo{} as single-file projects through the real binary (batched, bisected on exit status outside {{0,1}}), every line-boundary truncation of tests/fixtures next to a valid file; unparsable files whose offending line holds 0..120 characters of 2 / 3 / 4 bytes before the error and 0 / 40 / 100 after it; reference cycles of 1..6 serde types with and without the dependency visualisation through the real binary; oracle: no panic (in process: catch_unwind, re-confirmed through the binary), exit status in {{0,1}}, and an unparsable file leaves the output of the valid file unchanged.", 3, if tier == Tier::Quick { 256 } else { 2000 }, if tier == Tier::Thorough { " and every .rs file in ~/.cargo/registry/src" } else { "" }));
+    res.coverage.set("rule", format!("(i) every string of <= {} letters over a 21-letter alphabet (ASCII, space, 2/3/4-byte characters, escaped quote, escaped backslash, parentheses, comma, '=', and the words the scanners look for) injected at 9 attribute-string positions; 40 raw attribute token forms (empty, missing values, non-literal values, duplicates, raw strings, cfg_attr) on fields, structs, variants, parameters and fns; (ii) 14 odd identifiers in 8 roles; (iii) 40 exotic syn::Type forms (incl. path segments with identifier characters that are neither letters nor digits) at the five sites wrapped to depth 0..5 in process, four non-ASCII project type names at every constructor position (map key / value, each tuple element, set element, Result arms, nested once more) of the five sites, every event name of <= 3 characters over letters, digits and the separators (adjacent, leading and trailing separators included), every arity 0..4 of emit / emit_to / emit_filter x 3 forms of the name argument x 5 receiver forms, nesting depth up to {} in a subprocess; an item-shape zoo (tuple/unit/generic structs, data-carrying and tagged enums, unions, trait and impl methods, pattern parameters, qualifiers, emit calls of every arity and payload expression); (iv) every .rs file under /repo{} as single-file projects through the real binary (batched, bisected on exit status outside {{0,1}}), every line-boundary truncation of tests/fixtures next to a valid file; unparsable files whose offending line holds 0..120 characters of 2 / 3 / 4 bytes before the error and 0 / 40 / 100 after it; reference cycles of 1..6 serde types with and without the dependency visualisation through the real binary; oracle: no panic (in process: catch_unwind, re-confirmed through the binary), exit status in {{0,1}}, and an unparsable file leaves the output of the valid file unchanged.", 3, if tier == Tier::Quick { 256 } else { 2000 }, if tier == Tier::Thorough { " and every .rs file in ~/.cargo/registry/src" } else { "" }));
     res.assumptions = vec!["totality is claimed only over these finite sets".into()];
     res
 }
